@@ -260,6 +260,18 @@ func (Prop) Generate(r *fw.Rand, tier string) []fw.Case {
 		ops = append(ops, "ping", "rt "+fmt.Sprint(r.Intn(1000)))
 		cases = append(cases, fw.Case{Ops: ops, Tags: tags})
 	}
+	// message values of every shape: iterator options inside requests, streamed points
+	nrt := 400
+	if tier == "thorough" {
+		nrt = 40000
+	}
+	for i := 0; i < nrt; i += 8 {
+		var ops []string
+		for k := 0; k < 8; k++ {
+			ops = append(ops, "rt2 "+fmt.Sprint(r.Intn(1<<30)))
+		}
+		cases = append(cases, fw.Case{Ops: ops, Tags: []string{"roundtrip"}})
+	}
 	return cases
 }
 
@@ -555,6 +567,8 @@ func runOp(op string) (out string) {
 		return "replies " + s
 	case "rt":
 		return roundTrips(f[1])
+	case "rt2":
+		return roundTrips2(f[1])
 	}
 	return "bad-op"
 }
@@ -592,7 +606,7 @@ func (Prop) Oracle(c fw.Case, out []string) fw.Verdict {
 			return fw.Verdict{OK: false, Why: fmt.Sprintf("%.200s panics", op), Signature: "panic in " + f[0]}
 		case f[0] == "ping" && o != "replies 2":
 			return fw.Verdict{OK: false, Why: "a valid write request was not answered after the previous streams: " + o, Signature: "node no longer serves valid requests"}
-		case f[0] == "rt" && o != "rt ok":
+		case (f[0] == "rt" || f[0] == "rt2") && o != "rt ok":
 			return fw.Verdict{OK: false, Why: op + " => " + o, Signature: "message round trip: " + strings.Fields(o + " ?")[1]}
 		}
 	}
